@@ -184,6 +184,19 @@ pub fn eval_push(s: &str, acc: &mut Acc) {
             }
         }
     }
+    // keep_tags(true) changes which handles are in force, never what one interface sees and another does
+    // not: iterator, load(multi) and load(single) calls and the peeking drive agree under it too
+    if let Ok(it) = observe_keep_tags(s, Api::Iter) {
+        for api in [Api::Push, Api::Push1, Api::PeekNext] {
+            if let Ok(o) = observe_keep_tags(s, api) {
+                if o.evs != it.evs || o.err != it.err {
+                    let what = if o.err.is_some() != it.err.is_some() { "success" } else if o.err != it.err { "error" } else { "events" };
+                    acc.violation(Violation { key: format!("keep-tags api={api:?} vs iterator what={what}"), expected: format!("events {} error {:?}", obs_kinds(&it.evs), it.err.as_ref().map(|e| &e.display)), observed: format!("events {} error {:?}", obs_kinds(&o.evs), o.err.as_ref().map(|e| &e.display)), case: str_case(s), size: s.len() });
+                    break;
+                }
+            }
+        }
+    }
     // peek-before-every-next drive equals plain iteration (a fixed, long history per input)
     if let Ok(o) = observe(s, Backend::Buf, Api::PeekNext) {
         if o.evs != ok_prefix || o.err != err || o.extra_after_end {
